@@ -18,7 +18,12 @@ struct Sub_ : state_machine_def<Sub_> {
     Row<SA, e, SA2, A<A1>, G<A1>>,       // declared first  -> lower priority
     Row<SA, e, SA3, A<A2>, G<A2>>,       // declared later  -> tried first
     Row<SB, e, SB2, A<B1>, G<B1>> > {};
+#if !defined(CFG_back11)   /* back11 does not compile a submachine-internal table reached through process_fsm_internal_table (Event const& vs Event&) */
   struct internal_transition_table : mpl::vector< Internal<e, A<I1>, G<I1>> > {};
+#define HAS_INTERNAL 1
+#else
+#define HAS_INTERNAL 0
+#endif
   template<class F,class Ev> void no_transition(Ev const&,F&,int){ g_log += "NTsub "; }
 };
 typedef BE<Sub_> Sub;
@@ -31,8 +36,27 @@ struct Top_ : state_machine_def<Top_> {
   template<class F,class Ev> void no_transition(Ev const&,F&,int){ g_log += "NT "; }
 };
 typedef BE<Top_> Top;
+// exit-point scenario: a guarded inner transition leads to an exit pseudo state, the outer machine continues from the exit point
+#include <boost/msm/front/states.hpp>
+struct leave { bool allowed; leave(bool a = false) : allowed(a) {} template<class E> leave(E const&) : allowed(true) {} };
+struct GL { template<class Ev,class F,class S,class T> bool operator()(Ev const& ev,F&,S&,T&){ g_log += "gL "; return ev.allowed; } };
+struct XSub_ : state_machine_def<XSub_> {
+  struct In : state<> {}; struct Out : exit_pseudo_state<leave> {};
+  typedef In initial_state;
+  struct transition_table : mpl::vector< Row<In, leave, Out, none, GL> > {};
+  template<class F,class Ev> void no_transition(Ev const&,F&,int){ g_log += "NTsub "; }
+};
+typedef BE<XSub_> XSub;
+struct XTop_ : state_machine_def<XTop_> {
+  struct Done : state<> {};
+  typedef XSub initial_state;
+  struct transition_table : mpl::vector< Row<XSub::exit_pt<XSub_::Out>, leave, Done, A<7>, none> > {};
+  template<class F,class Ev> void no_transition(Ev const&,F&,int){ g_log += "NT "; }
+};
+typedef BE<XTop_> XTop;
 #if IS_BACK_CT
 BOOST_MSM_BACK_GENERATE_PROCESS_EVENT(Sub)
+BOOST_MSM_BACK_GENERATE_PROCESS_EVENT(XSub)
 #endif
 
 static bool has(const std::string& s, const std::string& w){ return (" " + s).find(" " + w + " ") != std::string::npos; }
@@ -43,7 +67,7 @@ int main(int argc, char** argv) {
   for (unsigned v = 0; v < (1u<<NBITS); ++v) {
     g_bits = v; g_log.clear();
     Top m; m.start(); g_log.clear();
-    int r = (int)m.process_event(e());
+    e ev_; int r = (int)m.process_event(ev_);
     auto b = [&](int k){ return (v>>k)&1; };
     // --- expectation from the statement
     std::string exp;
@@ -53,7 +77,7 @@ int main(int argc, char** argv) {
     // region B
     exp += "g2 "; if (b(B1)) { exp += "a2 "; consumed = true; ++taken; }
     // Sub's own internal table: only if its regions did not consume
-    if (!consumed) { exp += "g3 "; if (b(I1)) { exp += "a3 "; consumed = true; ++taken; } }
+    if (HAS_INTERNAL && !consumed) { exp += "g3 "; if (b(I1)) { exp += "a3 "; consumed = true; ++taken; } }
     // outer rows on Sub: only if the inner level did not consume; O2 (declared last) first
     if (!consumed) { exp += "g5 "; if (b(O2)) { exp += "a5 "; ++taken; consumed = true; } else { exp += "g4 "; if (b(O1)) { exp += "a4 "; ++taken; consumed = true; } } }
     bool nt = has(g_log, "NT") || has(g_log, "NTsub");
@@ -69,8 +93,13 @@ int main(int argc, char** argv) {
     report(std::string(id) + ".result", ok_ret && ok_nt, "C06,C13", txt);
   }
   // an event nobody has a candidate for: no_transition exactly once per region of the machine that received it, on that machine only
-  { g_bits = 0; Top m; m.start(); g_log.clear(); int r = (int)m.process_event(other());
+  { g_bits = 0; Top m; m.start(); g_log.clear(); other ov_; int r = (int)m.process_event(ov_);
     bool ok = (r == 0) && count(g_log, "NT") == 1 && count(g_log, "NTsub") == 0;
     report("unmatched", ok, "C06,C07", "ret=" + std::to_string(r) + " log=[" + g_log + "]"); }
+  { XTop m; m.start(); g_log.clear(); leave l0(false); int r = (int)m.process_event(l0);
+    // the inner guard rejected: something reacted (a guard), so no no_transition and a non-zero result on every back-end / policy
+    report("exitpt.guard-rejects", r != 0 && !has(g_log, "NT") && !has(g_log, "NTsub") && count(g_log, "gL") == 1 && !has(g_log, "a7"), "C06,C13,C09", "ret=" + std::to_string(r) + " log=[" + g_log + "]"); }
+  { XTop m; m.start(); g_log.clear(); leave l1(true); int r = (int)m.process_event(l1);
+    report("exitpt.taken", (r & 1) && count(g_log, "a7") == 1 && !has(g_log, "NT"), "C09,C13,C07", "ret=" + std::to_string(r) + " log=[" + g_log + "]"); }
   return finish();
 }
